@@ -8,9 +8,7 @@ use std::collections::BTreeMap;
 
 impl Rule {
     pub fn parse(input: &str) -> Result<Self, Error> {
-        let mut comment_lines = input
-            .lines()
-            .filter_map(|line| line.trim_start().strip_prefix("//").map(str::trim));
+        let mut comment_lines = comment_lines(input).into_iter();
 
         let mut rule_builder = reval::RuleParser::new()
             .parse(input)
@@ -41,6 +39,37 @@ impl Rule {
 
         rule_builder.build()
     }
+}
+
+/// Collect the trimmed text of every `//` comment line. Lines inside a multi-line string
+/// literal are not comments, even when they start with `//`.
+fn comment_lines(input: &str) -> Vec<&str> {
+    let mut comments = Vec::new();
+    let mut in_string = false;
+
+    for line in input.lines() {
+        if !in_string {
+            if let Some(comment) = line.trim_start().strip_prefix("//") {
+                comments.push(comment.trim());
+                continue;
+            }
+        }
+
+        // Keep track of a string literal that is still open at the end of this line
+        let mut chars = line.chars();
+        while let Some(c) = chars.next() {
+            match c {
+                '\\' if in_string => {
+                    chars.next();
+                }
+                '"' => in_string = !in_string,
+                '/' if !in_string && chars.clone().next() == Some('/') => break,
+                _ => {}
+            }
+        }
+    }
+
+    comments
 }
 
 const DESCRIPTION_META: &str = "description";
